@@ -7,6 +7,9 @@
 //
 //	journaldrv run <cases.ndjson> <out.ndjson> <seed>
 //
+// Line order: a case's "order" says in which order (and how often) the lines of
+// the journal the real writer produced are handed to Count.
+//
 // Write faults: during the script steps listed in a case's "fails" every Write
 // of the journal file fails (and writes nothing), during those in "syncfails"
 // every Sync fails; the expected chunks already account for them.
@@ -77,6 +80,8 @@ type jcase struct {
 	To       int64          `json:"to"`
 	Expect   expect         `json:"expect"`
 	Journals []keyedJournal `json:"journals"`
+	// the order in which the lines of the real journal are handed to the reader: line i is chunk Order[i] (1-based)
+	Order []int `json:"order"`
 	// write faults: 1-based script steps during which the journal's Write / Sync fails
 	Fails     []int `json:"fails"`
 	SyncFails []int `json:"syncfails"`
@@ -210,6 +215,40 @@ func runPlan(plan []op, fails, syncFails []int, interval int64, unit time.Durati
 	return j
 }
 
+// file returns the journal as the case wants it read: its lines permuted,
+// repeated or doubled according to order (nil or the identity: as written).
+func (j *journal) file(order []int) []byte {
+	identity := len(order) == j.lines
+	for i, k := range order {
+		if k != i+1 {
+			identity = false
+		}
+	}
+	if identity || len(order) == 0 {
+		return j.data
+	}
+	lines := bytes.SplitAfter(j.data, []byte("\n"))
+	var out []byte
+	for _, k := range order {
+		if k >= 1 && k <= j.lines {
+			out = append(out, lines[k-1]...)
+		}
+	}
+	return out
+}
+
+func orderClass(c *jcase) string {
+	if len(c.Order) != len(c.Chunks) {
+		return "repeated-lines"
+	}
+	for i, k := range c.Order {
+		if k != i+1 {
+			return "permuted"
+		}
+	}
+	return "chronological"
+}
+
 func (j *journal) at(tick int64) time.Time { return j.t0.Add(time.Duration(tick) * j.unit) }
 
 func sizeClass(j *journal) string {
@@ -328,14 +367,18 @@ func checkPrivacy(c *jcase, j *journal, rep *reporter) {
 }
 
 func checkWindow(c *jcase, j *journal, rep *reporter) {
-	res, err := sinkcluster.NewClusterCounter(j.at(c.From), j.at(c.To)).Count(bytes.NewReader(j.data))
+	res, err := sinkcluster.NewClusterCounter(j.at(c.From), j.at(c.To)).Count(bytes.NewReader(j.file(c.Order)))
 	if err != nil {
 		rep.put(c, "C19/journal:reader/error/"+sizeClass(j), fmt.Sprintf("Count: %v", err))
 		return
 	}
 	if res.ChunkIncluded != c.Expect.Included {
-		rep.put(c, "C19/journal:window/included-mismatch/"+sizeClass(j), fmt.Sprintf("window [%d, %d] (unit %v): %d chunks included, the contract says %d; sum %d, expected %d",
-			c.From, c.To, j.unit, res.ChunkIncluded, c.Expect.Included, res.Sum, c.Expect.Count))
+		cls := sizeClass(j)
+		if oc := orderClass(c); oc != "chronological" {
+			cls += "/" + oc
+		}
+		rep.put(c, "C19/journal:window/included-mismatch/"+cls, fmt.Sprintf("window [%d, %d] (unit %v), lines in order %v: %d chunks included, the contract says %d; sum %d, expected %d",
+			c.From, c.To, j.unit, c.Order, res.ChunkIncluded, c.Expect.Included, res.Sum, c.Expect.Count))
 		return
 	}
 	if int64(res.Sum) < c.Expect.Lo || int64(res.Sum) > c.Expect.Hi {
